@@ -153,6 +153,11 @@ fn decode_raw_bytes(filedata: &[u8]) -> String {
     outstr
 }
 
+#[cfg(a2lfile_verif)]
+pub(crate) fn verif_decode_raw_bytes(filedata: &[u8]) -> String {
+    decode_raw_bytes(filedata)
+}
+
 /*************************************************************************************************/
 
 #[cfg(test)]
